@@ -52,6 +52,8 @@ func (e event) String() string {
 		return fmt.Sprintf("a catalogue entry (dataset created via n%d)", e.Via)
 	case "standalone":
 		return fmt.Sprintf("n%d is started with -join=false and left alone for an election timeout", e.Node)
+	case "opposite-schedule":
+		return "(every transition under the opposite of the default schedule)"
 	case "down":
 		return fmt.Sprintf("n%d goes down", e.Node)
 	case "up":
@@ -75,8 +77,12 @@ type wld struct {
 	counts  struct{ joins, removes, snapshots, restarts, entries int }
 }
 
+// opposite: every transition of the history runs under the opposite of the default schedule (sim.oppositePick).
+var opposite bool
+
 func build(path []event) (*wld, string, string) {
 	w := &wld{Servers: sim.NewServers(), members: map[uint64]string{}, removed: map[uint64]bool{}}
+	w.Opposite = opposite
 	w.Add(1, nil)
 	if err := w.Boot(1); err != nil {
 		return w, "boot-fails", fmt.Sprint(err)
@@ -88,6 +94,10 @@ func build(path []event) (*wld, string, string) {
 		return w, "boot:" + k, d
 	}
 	for _, e := range path {
+		if e.Kind == "opposite-schedule" {
+			w.Opposite = true // replayed histories carry the mode as their first event
+			continue
+		}
 		k, d := w.apply(e)
 		if os.Getenv("VERIF_DEBUG") != "" {
 			fmt.Fprintf(os.Stderr, "after %v: %s | %s\n", e, k, w.canon())
@@ -540,14 +550,23 @@ func main() {
 			if di%sn != si {
 				continue
 			}
-			w, k, d := build(h)
-			w.Close()
-			res.Directed += len(h)
-			if k != "" {
-				res.Violations = append(res.Violations, struct {
-					Key, Desc string
-					Path      []event
-				}{k + ":directed", d, h})
+			for _, opp := range []bool{false, true} {
+				opposite = opp
+				w, k, d := build(h)
+				opposite = false
+				w.Close()
+				res.Directed += len(h)
+				if k != "" {
+					hh := h
+					if opp {
+						hh = append([]event{{Kind: "opposite-schedule"}}, h...)
+					}
+					res.Violations = append(res.Violations, struct {
+						Key, Desc string
+						Path      []event
+					}{k + ":directed", d, hh})
+					break
+				}
 			}
 		}
 		if os.Getenv("VERIF_AS") != "" && os.Getenv("VERIF_PART_MODE") == "directed" {
